@@ -56,6 +56,7 @@ CHECKS["C16"] = dict(
     rule="rapid-generated packet descriptions; non-trivial = remaining length needs >=2 bytes or any non-default flag/QoS/return code; distinct = distinct description.",
     assumptions=["packets whose total size exceeds the 64 KiB encoder buffer are out of scope (counted as excluded)"],
     legs=[dict(name="differential", test="^TestCodecDifferential$", quick=dict(n=50000, procs=4, timeout=300), thorough=dict(n=5000000, procs=12, timeout=3000)),
+          dict(name="concurrent-encode", test="^TestConcurrentEncode$", quick=dict(n=400, procs=2, timeout=300), thorough=dict(n=40000, procs=6, timeout=2400)),
           dict(name="fuzz-seeds", test="^FuzzDecode$", kind="plain", quick=dict(n=1, procs=1, timeout=120), thorough=dict(n=1, procs=1, timeout=120)),
           dict(name="fuzz-decode", kind="fuzz", fuzz="FuzzDecode", thorough=dict(fuzztime=240, workers=8))],
 )
@@ -131,6 +132,7 @@ CHECKS["C17"] = dict(
          "write, (c) stream longer than the first read or control frames present, (d) >=1 message larger than the client's write buffer; distinct = distinct case value.",
     legs=[dict(name="sniffer", test="^TestSniffer$", quick=dict(n=6000, procs=2, timeout=300), thorough=dict(n=3000000, procs=8, timeout=3000)),
           dict(name="writes", test="^TestWrites$", quick=dict(n=1500, procs=4, timeout=400), thorough=dict(n=60000, procs=14, timeout=2400)),
+          dict(name="concurrent-writes", test="^TestConcurrentWrites$", quick=dict(n=300, procs=2, timeout=300), thorough=dict(n=30000, procs=6, timeout=2400)),
           dict(name="websocket", test="^TestWebsocket$", quick=dict(n=4000, procs=2, timeout=300), thorough=dict(n=2000000, procs=8, timeout=3000)),
           dict(name="websocket-real", test="^TestRealWebsocket$", quick=dict(n=300, procs=2, timeout=300), thorough=dict(n=20000, procs=6, timeout=2400))],
 )
